@@ -20,9 +20,11 @@ MENU_T = [(mt, m) for mt in (None, 0.0, 0.5 * U, U, 1.5 * U, 2 * U, 3 * U, 9 * U
 
 def plan(tier):
     if tier == "quick":
-        specs = [([("dense", 1, 5)], MENU_DENSE_Q), ([("bounded", 3, 6, 9)], MENU_BOUNDED_Q)]
+        specs = [([("dense", 1, 5)], MENU_DENSE_Q), ([("bounded", 3, 6, 8)], MENU_BOUNDED_Q),
+                 ([("near", 2, 3)], MENU_BOUNDED_Q + [(2.0 ** -30, 0.0), (None, 2.0 ** -28)])]
     else:
-        specs = [([("dense", 1, 7)], MENU_T), ([("bounded", 4, 8, 10)], MENU_T)]
+        specs = [([("dense", 1, 7)], MENU_T), ([("bounded", 4, 8, 10)], MENU_T),
+                 ([("near", 2, 4)], MENU_BOUNDED_Q + [(2.0 ** -30, 0.0), (None, 2.0 ** -28)])]
     tasks, descs = [], []
     for regimes, menu in specs:
         tasks += pairs.regime_tasks(2, regimes, ["py", "pyx"], extra={"menu": menu})
@@ -137,8 +139,7 @@ def evaluate(r, trains, edges, max_tau, mrts, be, rank=()):
 
 
 def check_state(r, k, masks, task):
-    trains = [lattice.times(m) for m in masks]
-    edges = lattice.edges(k)
+    trains, edges = pairs.trains_edges(k, masks)
     ns = pairs.nspikes(masks)
     for mi, (mt, m) in enumerate(task["menu"]):
         evaluate(r, trains, edges, mt, m, task["backend"], (k, ns, mi))
